@@ -178,12 +178,18 @@ def _init_ranges(ctx, name, C, genv, model_l, model_g, gym_state=lambda g: np.as
 
 # ---- CartPole
 
-def _cartpole(ctx):
+def _cartpole(ctx, kw=None):
     rng = ctx.rng
-    env = cc.CartPole(solver=diffrax.Euler())
+    kw = kw or {}
+    env = cc.CartPole(solver=diffrax.Euler(), **kw)
     C = _Classic(env, CartPoleState, 4)
     g = gym.make("CartPole-v1").unwrapped
     g.reset(seed=0)
+    if kw:      # the same non-default physical parameters on the Gymnasium side (instance attributes)
+        g.gravity, g.masscart, g.masspole = kw["gravity"], kw["cart_mass"], kw["pole_mass"]
+        g.length, g.force_mag = kw["half_length"], kw["force_mag"]
+        g.total_mass, g.polemass_length = g.masspole + g.masscart, g.masspole * g.length
+        ctx.count("classic:cartpole:non-default-parameters")
     pl = dict(gravity=_f(env.gravity), cart_mass=_f(env.cart_mass), pole_mass=_f(env.pole_mass),
               length=_f(env.length), force_mag=_f(env.force_mag),
               theta_threshold=_f(env.theta_threshold_radians), x_threshold=_f(env.x_threshold),
@@ -328,12 +334,17 @@ def _fit(a, n):
     return np.tile(a, (reps, 1))[:n] if a.ndim == 2 else np.tile(a, reps)[:n]
 
 
-def _mountaincar(ctx):
+def _mountaincar(ctx, kw=None):
     rng = ctx.rng
-    env = cc.MountainCar(solver=diffrax.Euler())
+    kw = kw or {}
+    env = cc.MountainCar(solver=diffrax.Euler(), **kw)
     C = _Classic(env, MountainCarState, 2)
     g = gym.make("MountainCar-v0").unwrapped
     g.reset(seed=0)
+    for k_, v_ in kw.items():
+        setattr(g, k_, v_)
+    if kw:
+        ctx.count("classic:mountaincar:non-default-parameters")
     names = ["min_position", "max_position", "max_speed", "goal_position", "goal_velocity", "force", "gravity"]
     pl = {k: _f(getattr(env, k)) for k in names}
     pl["dt"] = _f(env.dt)
@@ -405,12 +416,17 @@ def _mountaincar(ctx):
     _init_ranges(ctx, "mountaincar", C, g, out["lerax"]["init_range"], out["gym"]["reset_range"])
 
 
-def _cmc(ctx):
+def _cmc(ctx, kw=None):
     rng = ctx.rng
-    env = cc.ContinuousMountainCar(solver=diffrax.Euler())
+    kw = kw or {}
+    env = cc.ContinuousMountainCar(solver=diffrax.Euler(), **kw)
     C = _Classic(env, ContinuousMountainCarState, 2)
     g = gym.make("MountainCarContinuous-v0").unwrapped
     g.reset(seed=0)
+    for k_, v_ in kw.items():
+        setattr(g, k_, v_)
+    if kw:
+        ctx.count("classic:cmc:non-default-parameters")
     names = ["min_action", "max_action", "min_position", "max_position", "max_speed", "goal_position",
              "goal_velocity", "power"]
     pl = {k: _f(getattr(env, k)) for k in names}
@@ -418,10 +434,11 @@ def _cmc(ctx):
     pg = {k: float(getattr(g, k)) for k in names}
     pg["dt"] = 1.0
     out0 = ctx.drv.call("c17_cmc", p=pl, y=[0, 0], action=0.0)
-    _chk(ctx, "classic:cmc:default_goal", {"env": "ContinuousMountainCar"}, pl["goal_position"],
-         out0["lerax"]["default_goal"])
-    _chk(ctx, "gym:cmc:goal", {"env": "ContinuousMountainCar"}, pg["goal_position"], out0["gym"]["goal"],
-         atol=G_ATOL)
+    if not kw:
+        _chk(ctx, "classic:cmc:default_goal", {"env": "ContinuousMountainCar"}, pl["goal_position"],
+             out0["lerax"]["default_goal"])
+        _chk(ctx, "gym:cmc:goal", {"env": "ContinuousMountainCar"}, pg["goal_position"], out0["gym"]["goal"],
+             atol=G_ATOL)
     _same(ctx, [(k, pl[k], pg[k]) for k in pl], {"env": "ContinuousMountainCar", "what": "parameters"},
           "classic:cmc:params")
     ys = _mc_states(ctx, pg, ctx.budget(36, 360))
@@ -489,13 +506,18 @@ def _cmc(ctx):
     _init_ranges(ctx, "cmc", C, g, out0["lerax"]["init_range"], out0["gym"]["reset_range"])
 
 
-def _acrobot(ctx):
+def _acrobot(ctx, kw=None):
     rng = ctx.rng
     from gymnasium.envs.classic_control import acrobot as gacro
-    env = cc.Acrobot(solver=diffrax.Euler())
+    kw = kw or {}
+    env = cc.Acrobot(solver=diffrax.Euler(), **kw)
     C = _Classic(env, AcrobotState, 4)
     g = gym.make("Acrobot-v1").unwrapped
     g.reset(seed=0)
+    for k_, v_ in kw.items():       # link_length_1 -> LINK_LENGTH_1 ... (instance attributes shadow the class's)
+        setattr(g, k_.upper(), v_)
+    if kw:
+        ctx.count("classic:acrobot:non-default-parameters")
     pi_l = float(np.asarray(jnp.asarray(jnp.pi, dtype=_ft(ctx))))
     pl = dict(gravity=_f(env.gravity), l1=_f(env.link_length_1), l2=_f(env.link_length_2),
               m1=_f(env.link_mass_1), m2=_f(env.link_mass_2), lc1=_f(env.link_com_pos_1),
@@ -800,6 +822,41 @@ def _assembly_case(ctx, name, opts, e, g, cfg_l, cfg_g, dims, d0, d1, p0g, p1g, 
     _chk(ctx, f"{pre}:lerax:obs_reset", case, obs0, ml["obs_prev"], sc)
     _chk(ctx, f"{pre}:lerax:reward", case, rew, ml["reward"], sc)
     _chk(ctx, f"{pre}:lerax:terminated", case, term, ml["terminated"], exact=True)
+    # health-boundary probe: after a step the cached body positions (xpos) lag the integrated qpos by one
+    # sub-step; Gymnasium's is_healthy reads the height from qpos.  Put the upper (then the lower) bound of
+    # the healthy height range between the two readings and compare termination / healthy reward again.
+    zi = {"Ant": 2, "Humanoid": 2, "Hopper": 1, "Walker2d": 1}.get(name)
+    if zi is not None and hasattr(e, "healthy_z_range") and "z_lo" in cfg_l:
+        zq = float(p1l["qpos"][zi])
+        zs = p1l["xpos"][:, 2]
+        zx = float(zs[int(np.argmin(np.where(np.abs(zs - zq) > 1e-9, np.abs(zs - zq), np.inf)))])
+        if 1e-9 < abs(zq - zx) < 0.05:
+            mid = 0.5 * (zq + zx)
+            for lo_, hi_ in ((min(zq, zx) - 1.0, mid), (mid, max(zq, zx) + 1.0)):
+                e2 = eqx.tree_at(lambda m: m.healthy_z_range, e, jnp.asarray([lo_, hi_], dtype=e.healthy_z_range.dtype))
+                lo32, hi32 = (float(v) for v in np.asarray(e2.healthy_z_range, dtype=np.float64))
+                if not (min(zq, zx) < hi32 < max(zq, zx) or min(zq, zx) < lo32 < max(zq, zx)):
+                    continue        # float32 cannot place a bound strictly between the two heights
+                term2 = bool(np.asarray(e2.terminal(s1, key=k)))
+                rew2 = _f(e2.reward(s0, a, s1, key=k))
+                m2 = ctx.drv.call("c17_mujoco", env=name, cfg={**cfg_l, "z_lo": lo32, "z_hi": hi32}, prev=p0l,
+                                  next=p1l, action=a_l, dims=list(dims))["lerax"]
+                pc = {**case, "probe": "healthy_z bound placed between post-step qpos height and cached body height",
+                      "qpos_height": zq, "cached_body_height": zx, "healthy_z_range": [lo32, hi32]}
+                ctx.count(f"{pre}:health-boundary-probes")
+                # Φ first: Gymnasium itself, in the very state it just reached, with the same bounds
+                if hasattr(g, "_healthy_z_range") and hasattr(g, "is_healthy"):
+                    old = g._healthy_z_range
+                    try:
+                        g._healthy_z_range = (lo32, hi32)
+                        gterm2 = bool((not g.is_healthy) and getattr(g, "_terminate_when_unhealthy", True))
+                    finally:
+                        g._healthy_z_range = old
+                    _same(ctx, [("terminated", float(term2), float(gterm2))], {**pc, "gymnasium_terminated": gterm2,
+                                                                                "lerax_terminated": term2},
+                          f"{pre}:health-probe")
+                _chk(ctx, f"{pre}:lerax:terminated", pc, term2, m2["terminated"], exact=True)
+                _chk(ctx, f"{pre}:lerax:reward", pc, rew2, m2["reward"], sc)
     _chk(ctx, f"{pre}:lerax:obs_size", case, int(e.observation_space.shape[0]), ml["obs_size"], exact=True)
     _chk(ctx, f"{pre}:lerax:obs_length", case, len(obs1), ml["obs_size"], exact=True)
     mcomps = dict((n_, v) for n_, v in ml["comps"])
@@ -970,6 +1027,61 @@ def _mujoco_physics(ctx):
         g.close()
 
 
+def _mujoco_contact_forces(ctx):
+    """Contact forces across simulators, where the two engines agree on the motion.
+
+    Gymnasium fills `cfrc_ext` after every control step (`mj_rnePostConstraint` in `do_simulation`); the
+    contact-force block of the observation and the contact / impact cost are part of the v5 semantics.
+    HumanoidStandup lies on the floor from the reset on, and MJX and MuJoCo C agree there to ~1e-3
+    relative, so the comparison is made on it (thorough: Humanoid and Ant too), only on transitions after
+    which the two simulators' positions agree, with a tolerance of 2 % of the largest contact force."""
+    names = ["HumanoidStandup"] if ctx.quick else ["HumanoidStandup", "Humanoid", "Ant"]
+    k = _key()
+    for name in names:
+        opts = {}
+        e, g = _make_pair(name, opts)
+        mjm = g.model
+        dims = (int(mjm.nq), int(mjm.nv), int(mjm.nbody))
+        initial = eqx.filter_jit(e.initial)
+        transition = eqx.filter_jit(e.transition)
+        pre = f"mujoco:{name}"
+        g.reset(seed=0)
+        ck = "reward_impact" if name == "HumanoidStandup" else "reward_contact"
+        for r in range(ctx.budget(2, 6)):
+            s = initial(key=jax.random.key(int(ctx.rng.integers(0, 2**31 - 1))))
+            for t in range(ctx.budget(3, 12) if name != "Ant" else 30):
+                pl_ = _phys(s.sim_state)
+                g.set_state(pl_["qpos"].copy(), pl_["qvel"].copy())
+                action = _mj_action(ctx, g, "uniform")
+                a_l = jnp.asarray(np.asarray(action, dtype=_ft(ctx)))
+                s1 = transition(s, a_l, key=k)
+                go, gr, _gt, _tr, ginfo = g.step(_r(ctx, action))
+                go = np.asarray(go, dtype=np.float64)
+                lobs1 = _np(e.observation(s1, key=k))
+                lcomps, gcomps = _comps(e.transition_info(s, a_l, s1)), _comps(ginfo)
+                p1 = _phys(s1.sim_state)
+                mask = _cfrc_mask(name, opts, len(go), dims)
+                gmax = float(np.abs(go[mask]).max()) if len(mask) else 0.0
+                agree = float(np.abs(p1["qpos"] - np.asarray(g.data.qpos)).max()) < (1e-5 if ctx.x64 else 1e-3)
+                s = s1
+                if gmax < 1.0 or not agree:
+                    ctx.count(f"{pre}:contact-forces:skipped(no contact or motions differ)")
+                    continue
+                case = {"env": name, "source": f"reset {r}, step {t}", "qpos": pl_["qpos"], "qvel": pl_["qvel"],
+                        "action": action, "largest_contact_force_gymnasium": gmax,
+                        "largest_contact_force_lerax": float(np.abs(lobs1[mask]).max()),
+                        "lerax_" + ck: lcomps.get(ck), "gymnasium_" + ck: gcomps.get(ck)}
+                ctx.case(case, True)
+                ctx.count(f"{pre}:contact-forces-compared")
+                tolc = 2e-2 * gmax + 1e-2
+                if float(np.abs(lobs1[mask] - go[mask]).max()) > tolc:
+                    ctx.phi_fail("observation(contact forces)", {**case, "lerax_block": lobs1[mask][:24], "gymnasium_block": go[mask][:24]},
+                                 key=f"{pre}:physics:contact_forces_in_observation")
+                elif ck in lcomps and ck in gcomps and abs(lcomps[ck] - gcomps[ck]) > 5e-2 * abs(gcomps[ck]) + 1e-4:
+                    ctx.phi_fail(f"component:{ck}", case, key=f"{pre}:physics:{ck}")
+        g.close()
+
+
 def _mujoco_reset_all(ctx, names):
     """Reset-state clauses for environments whose full physics differential runs only in the thorough
     tier: initial() is cheap to compile, so the cached kinematics of the reset state and the reset
@@ -1040,9 +1152,18 @@ def run(ctx):
     _mountaincar(ctx)
     _cmc(ctx)
     _acrobot(ctx)
+    # the same comparisons with non-default constructor parameters on both sides (the theorems hold for
+    # every parameter set; which parameters enter which formula is part of the reference semantics:
+    # e.g. Gymnasium's Acrobot goal test does not involve the link lengths)
+    _cartpole(ctx, dict(gravity=9.0, cart_mass=1.3, pole_mass=0.25, half_length=0.7, force_mag=8.0))
+    _mountaincar(ctx, dict(goal_position=0.45, goal_velocity=0.01, force=0.0015, gravity=0.002, max_speed=0.06))
+    _cmc(ctx, dict(power=0.002, goal_position=0.4, goal_velocity=0.01, max_speed=0.06))
+    _acrobot(ctx, dict(link_length_1=1.5, link_length_2=0.6, link_mass_1=1.2, link_mass_2=0.8,
+                       link_com_pos_1=0.6, link_com_pos_2=0.4, link_moi=1.3))
     _pendulum(ctx)
     _mujoco_assembly(ctx)
     _mujoco_physics(ctx)
+    _mujoco_contact_forces(ctx)
     if ctx.quick and not ctx.x64:
         _mujoco_reset_all(ctx, [n for n in ENVS if n not in QUICK_PHYSICS])
     ctx.note("InvertedDoublePendulum: lerax reports dist_penalty / vel_penalty / alive_bonus (penalties "
@@ -1052,5 +1173,6 @@ def run(ctx):
              "transitions later than two steps after a reset, where joint-limit impacts occur) are not compared "
              "across simulators — the two engines resolve impacts differently (O(0.1-1) in joint velocities); "
              "those states are covered by the assembly part")
-    ctx.note("contact forces (cfrc_ext) are compared only through the assembly models on quantities of one "
-             "simulator, never between MJX and MuJoCo C")
+    ctx.note("contact forces (cfrc_ext): through the assembly models on quantities of one simulator everywhere; "
+             "between MJX and MuJoCo C on HumanoidStandup (thorough: Humanoid, Ant) on transitions after which "
+             "the two simulators' positions agree, to 2 % of the largest force")
